@@ -441,6 +441,146 @@ def part_dependent(ctx):
     return dict(st)
 
 
+# ------------------------------------------------------------------ histories before the call
+_hist_ids = itertools.count()
+
+
+def _mkfn(tag, params, kwonly=()):
+    """params: [(name, annotation source, default source or None)]; returns a function that reports what it received"""
+    import linecache
+    ps = [f"{n}: {a}" + (f" = {d}" if d is not None else "") for (n, a, d) in params]
+    if kwonly:
+        ps.append("*")
+        ps += [f"{n}: {a}" + (f" = {d}" if d is not None else "") for (n, a, d) in kwonly]
+    names = [n for (n, _, _) in list(params) + list(kwonly)]
+    src = f"def m_{tag}({', '.join(ps)}):\n    return ('ret', {tag!r}, {{{', '.join(repr(n) + ': ' + n for n in names)}}})\n"
+    fname = f"<verif-c03-hist-{next(_hist_ids)}>"
+    linecache.cache[fname] = (len(src), None, src.splitlines(True), fname)
+    glb = {"__name__": "verif_c03_hist"}
+    exec(compile(src, fname, "exec"), glb)
+    return glb[f"m_{tag}"]
+
+
+def _outcome(thunk):
+    try:
+        return ["ok", repr(thunk())]
+    except TypeError as e:
+        return ["TypeError"]
+    except Exception as e:  # noqa
+        return ["exc", type(e).__name__]
+
+
+def history_case(rng, fixed=None):
+    """-> dict(kind, steps (human-readable), build_history() -> callable, build_fresh() -> callable, calls [(args, kwargs)])"""
+    import inspect, ovld
+    if fixed is None:
+        n1, n2 = rng.sample(["x", "y", "u", "v"], 2)
+        fixed = {"kind": rng.choice(["rename_replace", "rename_replace", "variant_override", "inspect_then_new_shape", "call_then_new_shape", "copy_inspected_then_parent_grows"]),
+                 "n1": n1, "n2": n2, "t": rng.choice(["int", "str", "object"]), "use_between": rng.random() < 0.5, "use_after": rng.random() < 0.5}
+    kind, n1, n2, t, use_between, use_after = (fixed[k] for k in ("kind", "n1", "n2", "t", "use_between", "use_after"))
+    val = {"int": 1, "str": "a", "object": 2.5}[t]
+    if kind == "rename_replace":
+        # two definitions of one signature that name their parameter differently; the older one is unregistered
+        def hist():
+            f = ovld.Ovld(name="f")
+            v1, v2 = _mkfn("v1", [(n1, t, None)]), _mkfn("v2", [(n2, t, None)])
+            f.register(v1)
+            if use_between:
+                _outcome(lambda: f(val))
+            f.register(v2)
+            if use_after:
+                _outcome(lambda: f(val))
+            f.unregister(v1)
+            return f
+
+        def fresh():
+            f = ovld.Ovld(name="f")
+            f.register(_mkfn("v2", [(n2, t, None)]))
+            return f
+        calls = [((val,), {}), ((), {n2: val}), ((), {n1: val})]
+    elif kind == "variant_override":
+        def hist():
+            p = ovld.Ovld(name="p")
+            p.register(_mkfn("v1", [(n1, t, None)]))
+            p.register(_mkfn("w", [(n1, "list", None)]))
+            if use_between:
+                _outcome(lambda: p(val))
+            g = p.copy()
+            g.register(_mkfn("v2", [(n2, t, None)]))
+            return g
+
+        def fresh():
+            f = ovld.Ovld(name="f")
+            f.register(_mkfn("w", [(n1, "list", None)]))
+            f.register(_mkfn("v2", [(n2, t, None)]))
+            return f
+        calls = [((val,), {}), (([1],), {})]
+    elif kind in ("inspect_then_new_shape", "call_then_new_shape"):
+        def hist():
+            f = ovld.Ovld(name="f")
+            f.register(_mkfn("a", [("x", "int", None)]))
+            if kind == "inspect_then_new_shape":
+                f.rename("f")
+                str(inspect.signature(f.dispatch).parameters)
+            else:
+                _outcome(lambda: f(1))
+            f.register(_mkfn("b", [("x", "int", None), ("z", "int", "5")]))
+            f.register(_mkfn("c", [("x", "str", None)], [("k", "int", "0")]))
+            return f
+
+        def fresh():
+            f = ovld.Ovld(name="f")
+            f.register(_mkfn("a", [("x", "int", None)]))
+            f.register(_mkfn("b", [("x", "int", None), ("z", "int", "5")]))
+            f.register(_mkfn("c", [("x", "str", None)], [("k", "int", "0")]))
+            return f
+        calls = [((1,), {}), ((1, 2), {}), (("a",), {"k": 3}), (("a",), {}), ((), {"x": 1})]
+    else:
+        # a copy whose signature is looked at before its first use; its parent then gets its first type[...] method
+        def hist():
+            p = ovld.Ovld(name="p")
+            p.register(_mkfn("o", [("a", "object", None), ("b", "int", None)]))
+            g = p.copy()
+            g.rename("g")
+            str(inspect.signature(g.dispatch).parameters)
+            p.register(_mkfn("t", [("a", "type[int]", None), ("b", "int", None)]))
+            return g
+
+        def fresh():
+            f = ovld.Ovld(name="f")
+            f.register(_mkfn("o", [("a", "object", None), ("b", "int", None)]))
+            f.register(_mkfn("t", [("a", "type[int]", None), ("b", "int", None)]))
+            return f
+        calls = [((bool, 1), {}), ((int, 1), {}), ((str, 1), {}), ((3, 1), {})]
+    return dict(fixed, hist=hist, fresh=fresh, calls=calls)
+
+
+def part_histories(ctx):
+    """the entry point serves the methods registered NOW, whatever was registered, unregistered, inspected or called
+    before: every call on the function with the history = the same call on a function built from the final methods alone
+    (property oracle; the implementation against itself)"""
+    st = collections.Counter()
+    for _ in range(60 if ctx.quick() else 1500):
+        hc = history_case(ctx.rng)
+        try:
+            fh, ff = hc["hist"](), hc["fresh"]()
+        except Exception as e:  # noqa
+            ctx.violation(f"history {hc['kind']}: building raised {type(e).__name__}: {e}", {"history": {k: v for k, v in hc.items() if k not in ('hist', 'fresh', 'calls')}})
+            continue
+        st["histories:" + hc["kind"]] += 1
+        for (a, k) in hc["calls"]:
+            got, exp = _outcome(lambda: fh(*a, **k)), _outcome(lambda: ff(*a, **k))
+            st["history_calls"] += 1
+            if got != exp:
+                ctx.violation(f"history {hc['kind']} (names {hc['n1']}/{hc['n2']}, type {hc['t']}, used in between: {hc['use_between']}): the call {a!r} {k!r} gives {got}, "
+                              f"a function built from the final methods alone gives {exp}",
+                              {"history": {kk: v for kk, v in hc.items() if kk not in ("hist", "fresh", "calls")}, "call": [repr(a), repr(k)]})
+                break
+        if len(ctx.violations) > 20:
+            break
+    return dict(st)
+
+
 def run(ctx):
     st = Stats()
     counter = itertools.count()
@@ -490,6 +630,7 @@ def run(ctx):
     exhaustive["complete"] = i >= len(todo)
     exhaustive["of"] = [len(singles), len(pairs)]
     dep = part_dependent(ctx)
+    hist = part_histories(ctx)
     cross = 0
     if not quick:
         sub = [{"methods": w["methods"], "calls": w["calls"]} for w in corpus]
@@ -508,7 +649,7 @@ def run(ctx):
         "known_finding_hits": dict(st.kf_hits), "binding_rule_checks_vs_inspect": st.accepts_checked,
         "outcome_histogram": dict(st.outcomes), "positional_count_histogram": {str(k): v for k, v in sorted(st.by_k.items())},
         "keyword_count_histogram": {str(k): v for k, v in sorted(st.by_nkw.items())}, "set_features": dict(st.features),
-        "value_dependent_ranks": dep, "vm_compute_crosscheck_cases": cross, "traces_validated_against_impl": st.traces,
+        "value_dependent_ranks": dep, "histories_before_the_call": hist, "vm_compute_crosscheck_cases": cross, "traces_validated_against_impl": st.traces,
     }
 
 
@@ -534,6 +675,15 @@ def replay(ctx, payload):
     if "cases" in case:
         return model.run_cases(case["cases"]) != model.run_in_coq(case["cases"])
     col = _Collect(ctx)
+    if "history" in case:
+        hc = history_case(ctx.rng, fixed=case["history"])
+        fh, ff = hc["hist"](), hc["fresh"]()
+        bad = False
+        for (a, k) in hc["calls"]:
+            got, exp = _outcome(lambda: fh(*a, **k)), _outcome(lambda: ff(*a, **k))
+            print(json.dumps({"call": [repr(a), repr(k)], "with_history": got, "fresh": exp}))
+            bad = bad or got != exp
+        return bad
     if case.get("dep"):
         check_dependent_forwarding(col, case, collections.Counter())
         for v in col.violations:
